@@ -449,6 +449,76 @@ def _lazy_case(args):
     return cnt, out
 
 
+def _frustum_volume(r, z):
+    """Volume of revolution of the closed polyline (r, z), r >= 0, about
+    the z axis: the sum of truncated cones (Kegelstumpf formula),
+    positive for the order in which dclab stores contours."""
+    r = np.append(r, r[0])
+    z = np.append(z, z[0])
+    return np.pi / 3 * np.sum(np.diff(z) * (
+        r[:-1] ** 2 + r[:-1] * r[1:] + r[1:] ** 2))
+
+
+def _small_volume_case(args):
+    """The volume laws on every small mask (all masks of the 3x3 box and
+    chunk c of the 4x4 set): finite for contours of at least four points,
+    equal to the truncated-cone sum of the two half contours (written here),
+    proportional to pix^3 and sign flips with the orientation."""
+    chunk, nch = args
+    from dclab.features.contour import get_contour
+    from dclab.features.volume import get_volume
+    W = "dclab.features.volume:get_volume"
+    out = []
+    cnt = 0
+    masks = all_masks(4)[chunk::nch]
+    if chunk == 0:
+        masks = all_masks(3) + masks
+    pix = 0.34
+    for m in masks:
+        mask = place(m, "interior")
+        cont = get_contour(mask)
+        ys, xs = np.nonzero(mask)
+        cx, cy = xs.mean(), ys.mean()
+        cnt += 1
+        case = {"kind": "small-volume", "mask": m.astype(int).tolist()}
+
+        def bad(symptom, detail, **t):
+            out.append(violation(W, symptom, case, detail,
+                                 dict(t, npts=min(len(cont), 6))))
+        try:
+            v = get_volume(cont, cx * pix, cy * pix, pix)
+            v8 = get_volume(cont, cx * 2 * pix, cy * 2 * pix, 2 * pix)
+            vr = get_volume(cont[::-1], cx * pix, cy * pix, pix)
+        except Exception as e:
+            bad("exception", f"{type(e).__name__}: {e}",
+                exc=type(e).__name__)
+            continue
+        if len(cont) >= 4 and not np.isfinite(v):
+            bad("volume-not-finite", f"contour of {len(cont)} points: {v}")
+            continue
+        if len(cont) < 4:
+            continue
+        rr = cont[:, 1] - cy
+        zz = cont[:, 0] - cx
+        right = _frustum_volume(np.clip(rr, 0, None), zz)
+        left = _frustum_volume(-np.clip(rr, None, 0)[::-1], zz[::-1])
+        want = (right + left) / 2 * pix ** 3
+        scale = max(abs(want), pix ** 3)
+        if abs(v - want) > 1e-9 * scale:
+            bad("volume-differs-from-definition",
+                f"{v} vs truncated-cone sum {want}")
+        if abs(v8 - 8 * v) > 1e-9 * 8 * scale:
+            bad("volume-not-cubic-in-pixel-size", f"{v8} vs 8 x {v}")
+        if abs(vr + v) > 1e-9 * scale:
+            bad("volume-sign-not-flipped", f"reversed {vr} vs {v}")
+        # (fix_orientation=True is not constrained here: for contours
+        # this small the centre often lies on the contour itself and the
+        # orientation is undefined - dclab's own documentation warns that
+        # "fixing" can make things worse; the ellipse ladder checks it
+        # where the orientation is defined.)
+    return cnt, out
+
+
 TDMS_MASK_FIXTURES = ["fmt-tdms_fl-image_2016.zip",
                       "fmt-tdms_minimal_2016.zip",
                       "fmt-tdms_fl-image-bright_2017.zip",
@@ -593,6 +663,7 @@ def run(ctx):
         places = ("interior", "bottom", "top", "corner")
     res = par.pmap(_mask_case, [(c, nch, places) for c in range(nch)])
     res += par.pmap(_volume_case, [()])
+    res += par.pmap(_small_volume_case, [(c, 16) for c in range(16)])
     res += par.pmap(_bright_case, [(c, 8, ctx.scratch) for c in range(8)])
     res += par.pmap(_crosstalk_case, [()])
     res += par.pmap(_lazy_case, [()])
@@ -630,6 +701,12 @@ def run(ctx):
 def replay(case, ctx):
     if case["kind"] == "lazy":
         return _lazy_case(())[1]
+    if case["kind"] == "small-volume":
+        target = np.array(case["mask"], bool)
+        vs = []
+        for c in range(16):
+            vs += _small_volume_case((c, 16))[1]
+        return [v for v in vs if v["case"] == case]
     if case["kind"] == "tdms-mask":
         return _tdms_mask_case((case["name"], ctx.scratch))[1]
     if case["kind"] == "mask":
